@@ -82,6 +82,18 @@ def run_faults(ctx):
                     cases.append(dict(before=setup_ops(present), experiment=dict(kind="none"), after=[op] + READS))
                     models.append("show_sys (run_single %s %s)" % (prev_term(present), writer_term(frames[:k] + [b"?"], body_fault=k)))
                     meta.append(dict(kind="body_error", present=present, n=n, frames=len(frames), k=k, put_index=-3))
+                # an empty frame in the body: a faultless upload stores everything; a fault after it is still a fault
+                if frames:
+                    for pos in sorted({0, len(frames) // 2, len(frames)}):
+                        fl = [f.hex() for f in frames[:pos]] + [""] + [f.hex() for f in frames[pos:]]
+                        op = dict(op="put", bucket=h(BK), key=h(KEY), body=h(body), frames=fl, metadata={"v": "new"})
+                        cases.append(dict(before=setup_ops(present), experiment=dict(kind="none"), after=[op] + READS))
+                        models.append("show_sys (run_single %s %s)" % (prev_term(present), writer_term(frames)))
+                        meta.append(dict(kind="emptyframe_ok", present=present, n=n, frames=len(frames), k=pos, put_index=-3, expect_body=body))
+                        op = dict(op="put", bucket=h(BK), key=h(KEY), body=h(body), frames=fl, fail_after=len(fl), metadata={"v": "new"})
+                        cases.append(dict(before=setup_ops(present), experiment=dict(kind="none"), after=[op] + READS))
+                        models.append("show_sys (run_single %s %s)" % (prev_term(present), writer_term(frames + [b"?"], body_fault=len(frames))))
+                        meta.append(dict(kind="emptyframe_then_error", present=present, n=n, frames=len(frames), k=pos, put_index=-3))
                 # wrong checksum of each algorithm; right checksum for comparison
                 for alg in ("sha256", "sha1", "crc32", "crc32c"):
                     for good in ((True, False) if alg != "crc32c" else (False,)):
@@ -91,7 +103,7 @@ def run_faults(ctx):
                         op[alg] = val
                         cases.append(dict(before=setup_ops(present), experiment=dict(kind="none"), after=[op] + READS))
                         models.append("show_sys (run_single %s %s)" % (prev_term(present), writer_term(frames, bad_sum=not good)))
-                        meta.append(dict(kind="checksum_%s_%s" % (alg, "good" if good else "bad"), present=present, n=n, frames=len(frames), put_index=-3))
+                        meta.append(dict(kind="checksum_%s_%s" % (alg, "good" if good else "bad"), present=present, n=n, frames=len(frames), put_index=-3, expect_body=body if good else None))
                 # dropped after k frames
                 for k in range(len(frames) + 1):
                     op = dict(op="put", bucket=h(BK), key=h(KEY), body=h(body), frame=fsz)
@@ -117,12 +129,12 @@ def run_faults(ctx):
         if status == "failed":
             okprop = content == prev and ntmp == 0 and (not mt["present"] or "meta=v=old" in g)
         else:
-            okprop = ntmp == 0 and content is not None
+            okprop = ntmp == 0 and content is not None and (mt.get("expect_body") is None or content == mt["expect_body"])
         if not okprop:
-            ctx.violation(dict(stage="fault", kind="write not all-or-nothing: after a %s write the object/temp files are %s" % (status, impl),
-                               case=mt, answers=r["outs"][-3:], tmp=r["tmp"], model=m))
+            ctx.violation(dict(stage="fault", kind="write not all-or-nothing: after a %s write the object/temp files are %s" % (status, impl[:120]),
+                               case={k: v for k, v in mt.items() if k != "expect_body"}, answers=[a[:200] for a in r["outs"][-3:]], tmp=r["tmp"], model=m[:200]))
         elif impl != m:
-            ctx.violation(dict(stage="correspondence:fault", kind="model and implementation differ", case=mt, impl=impl, model=m), has_input=False)
+            ctx.violation(dict(stage="correspondence:fault", kind="model and implementation differ", case={k: v for k, v in mt.items() if k != "expect_body"}, impl=impl[:300], model=m[:300]), has_input=False)
         else:
             ctx.cov["traces_validated_against_impl"] += 1
             ctx.nontrivial((mt["kind"], mt["present"], mt["n"], mt.get("k"), impl[:40]))
